@@ -128,9 +128,9 @@ fn run_worker(args: &WorkerArgs) -> ShardStats {
     let mut stats = ShardStats::new();
     let thorough = args.tier == "thorough";
     let (default_runs, stream): (u64, u64) = match args.prop.as_str() {
-        "C14" => (if thorough { 40_000_000 } else { 1_600_000 }, 14),
-        "C08" => (if thorough { 8_000_000 } else { 400_000 }, 8),
-        "C18" => (if thorough { 20_000_000 } else { 800_000 }, 18),
+        "C14" => (if thorough { 120_000_000 } else { 1_600_000 }, 14),
+        "C08" => (if thorough { 48_000_000 } else { 400_000 }, 8),
+        "C18" => (if thorough { 80_000_000 } else { 800_000 }, 18),
         p => panic!("rtsim does not serve {p}"),
     };
     let runs = args.get_u64("runs", default_runs);
